@@ -449,4 +449,59 @@ def run(tier):
                                      "again and its handshake never completes" % (fn.relfile, ln, fn.name), file=fn.relfile, line=ln)
                     res.instance("C16.R8", "%s:%s store to appDataExch %s" % (fn.name, ln, "clears" if clears else "raises (receive path)"), ok, finding=f8)
     res.floor("C16.R8", 4)
+    # ------------------------------------------------------------------ R9 / R10
+    # 'completes once datagrams are eventually delivered, by timeout-driven retransmission': (R9) the retransmission timer
+    # rebuilds a flight only in states for which the encoder can rebuild what was actually sent - a SERVER waiting for
+    # Finished only in a resumed handshake (the encoder's FINISHED arm writes ServerHello/CCS/Finished; in a full handshake
+    # that bogus flight stalls the handshake or crashes in the record MAC); (R10) the RSA signing routine reports the
+    # signature length on every success path - the DTLS cache of the ServerKeyExchange signature is stored with it, a
+    # length of 0 makes every retransmission of that flight fail.
+    res.rule("C16.R9", "DTLS server: a flight is rebuilt in state FINISHED only in a resumed handshake")
+    cr = prog.by_name.get("canResend")
+    n9 = 0
+    if cr:
+        fn9 = cr[0]
+        gf9 = cu.guard_facts(fn9)
+        FIN = prog.const("SSL_HS_FINISHED")
+        RES = prog.const("SSL_FLAGS_RESUMED")
+        SRV = prog.const("SSL_FLAGS_SERVER")
+        for b in fn9.blocks:
+            for i, ln, x in cu.block_exprs(b):
+                for m in walk(x):
+                    if m.get("k") == "bin" and m["op"] == "=" and (strip(m["l"]) or {}).get("n") == "canSend" and \
+                            (strip(m["r"]) or {}).get("k") in ("int", "cast"):
+                        fs = gf9.get(b["id"], ())
+                        if not (any(txt == "(ssl->hsState == %d)" % FIN and tr for (txt, tr) in fs) and
+                                any(txt == "(ssl->flags & %d)" % SRV and tr for (txt, tr) in fs)):
+                            continue
+                        n9 += 1
+                        ok = any(txt == "(ssl->flags & %d)" % RES and tr for (txt, tr) in fs)
+                        f9 = None
+                        if not ok:
+                            f9 = Finding(PROP, "C16.R9", fn9.name, "server resend allowed in FINISHED of a full handshake",
+                                         "%s:%s canResend(): a server in state FINISHED may resend without the fact SSL_FLAGS_RESUMED: the encoder then "
+                                         "builds the flight of a resumed handshake although a full one is in progress - the handshake never completes "
+                                         "(or the record MAC crashes) once the retransmission timer fires while the client's Finished is lost" % (
+                                             fn9.relfile, ln), file=fn9.relfile, line=ln)
+                        res.instance("C16.R9", "canResend:%s server/FINISHED resend only when resumed" % ln, ok, finding=f9)
+    res.floor("C16.R9", 1)
+    res.rule("C16.R10", "psSignHashRsa reports the signature length on every success path (DTLS caches the ServerKeyExchange signature with it)")
+    n10 = 0
+    for fn10 in prog.by_name.get("psSignHashRsa", []):
+        n10 += 1
+
+        def sets_len(x):
+            return any(m.get("k") == "bin" and m["op"] == "=" and cu.ftext(strip(m["l"]) or {}).replace("(", "").replace(")", "") == "*outLen"
+                       for m in walk(x))
+        esc10 = cu.escapes(fn10, (fn10.entry, None), sets_len,
+                           is_target=lambda x: x.get("k") == "ret" and (strip(x.get("e")) or {}).get("k") == "int" and strip(x["e"])["v"] == 0)
+        f10 = None
+        if esc10 is not None:
+            f10 = Finding(PROP, "C16.R10", fn10.name, "signature length not reported",
+                          "%s:%s psSignHashRsa(): a success return is reachable (via lines %s) without a store to *outLen: with a preallocated "
+                          "output buffer psSign() reports length 0, the DTLS retransmission cache of the RSA ServerKeyExchange signature is "
+                          "empty and any loss of the ServerHello flight with an ECDHE_RSA / DHE_RSA suite is fatal" % (
+                              fn10.relfile, esc10[-1][1], [p_[1] for p_ in esc10[-5:]]), file=fn10.relfile, line=esc10[-1][1])
+        res.instance("C16.R10", "psSignHashRsa (%s): *outLen stored on every success path" % fn10.relfile, esc10 is None, finding=f10)
+    res.floor("C16.R10", 1)
     return res.finish()
